@@ -261,7 +261,7 @@ def check(chk: Check) -> None:
         for physical in (1, 2, 3):
             arity = 3 if physical == 1 else 4
             for case in cases(arity, integ):
-                for fs in (1, 250):
+                for fs in ((1, 2, 3, 5, 250) if chk.tier == "thorough" else (1, 250)):
                     jobs.append(dict(integ=integ, physical=physical, case=case, frame_size=fs))
     for res in pmap(run, jobs):
         if res is None:
